@@ -431,6 +431,62 @@ def path_macro_case(ck, rng, stats):
     sb.cleanup()
 
 
+def fork_failure_case(ck, rng, stats):
+    """one fork (or waitpid) fails once: an error for that message; the commands of the following messages run as if nothing had happened -
+    exactly once each, stdin /dev/null (or the message, if asked for), no extra descriptor"""
+    import iorun
+    kind = rng.choice(['exec', 'label-exec', 'command', 'exec-stdin'])
+    which = rng.choice(['fork', 'fork', 'waitpid'])
+    helper = common.rec_helper()
+    def build():
+        sb = mdrun.Sandbox()
+        src = sb.maildir('src'); dst = sb.maildir('dst')
+        hout = os.path.join(sb.root, 'helper-out'); os.makedirs(hout)
+        for i in range(3):
+            sb.add(src, 'new', b'To: a\nX-Id: f%d\n\nbody %d\n' % (i, i))
+        rule = {'exec': b'match all exec { "%s" "x" }', 'label-exec': b'match all label "l" exec { "%s" "x" }',
+                'command': b'match command { "%s" "x" } move "DST"', 'exec-stdin': b'match all exec stdin { "%s" "x" }'}[kind] % helper.encode()
+        conf = sb.write_conf(b'maildir "%s" {\n\t%s\n}\n' % (src.encode(), rule.replace(b'DST', dst.encode())))
+        return sb, conf, hout
+    sb, conf, hout = build()
+    log = os.path.join(sb.root, 'trace.log')
+    rc0, out0, err0 = sb.run([], conf=conf, env={'VERIF_HELPER_OUT': hout, 'VERIF_HELPER_EXIT': '0', 'VFIO_LOG': log, 'VFIO_ROOT': sb.root}, preload=iorun.SHIM)
+    calls0 = iorun.parse_trace(open(log, errors='replace').read().splitlines()) if os.path.exists(log) else []
+    ks = [c['k'] for c in calls0 if c['call'] == which]
+    sb.cleanup()
+    if not ks:
+        return
+    sb, conf, hout = build()
+    rc, out, err = sb.run([], conf=conf, env={'VERIF_HELPER_OUT': hout, 'VERIF_HELPER_EXIT': '0', 'VFIO_ROOT': sb.root,
+                                                 'VFIO_PLAN': '%d:errno=%s' % (ks[0], 'EAGAIN' if which == 'fork' else 'ECHILD')}, preload=iorun.SHIM)
+    stats['runs'] += 1; stats['fork_failure'] = stats.get('fork_failure', 0) + 1
+    calls = common.helper_calls(hout)
+    want_calls = 2 if which == 'fork' else 3
+    bad = None
+    if rc == 0:
+        bad = 'the failure of %s was not reported (exit 0)' % which
+    elif len(calls) != want_calls:
+        bad = 'the command ran %d time(s) for 3 messages of which the first met a failing %s (expected %d)' % (len(calls), which, want_calls)
+    else:
+        for c in calls[(0 if which == 'fork' else 1):]:
+            t0 = [t for n, t in c['fds'] if n == '0']
+            extra = [(n, t) for n, t in c['fds'] if int(n) > 2]
+            if extra:
+                bad = 'a later child inherits descriptor(s) %r' % extra; break
+            if kind == 'exec-stdin':
+                if b'To: a' not in c['stdin']:
+                    bad = 'a later child did not get its message on stdin'; break
+            elif c['stdin'] != b'' or (t0 and t0[0] != '/dev/null'):
+                bad = 'stdin of a later child is %r (%d bytes) instead of /dev/null' % (t0, len(c['stdin'])); break
+    if bad:
+        stats['viol'] += 1
+        ck.violation('rule kind %s, %s fails once for the first of three messages: %s (exit %d)' % (kind, which, bad, rc),
+                     {'config': open(conf, 'rb').read().decode(errors='replace'), 'exit': rc, 'stderr': err[-300:].decode(errors='replace')})
+    else:
+        stats['nontrivial'] += 1
+    sb.cleanup()
+
+
 def environment_case(ck, rng, stats):
     """The process environment of the children is the one mdsort was started with - whatever mdsort did to its own in between
     (date conditions on a zone abbreviation set TZ for a moment) - and so is the working directory."""
@@ -520,6 +576,7 @@ def run(ck):
             environment_case(ck, ck.rng, stats)
             command_per_attachment_case(ck, ck.rng, stats)
             path_macro_case(ck, ck.rng, stats)
+            fork_failure_case(ck, ck.rng, stats)
         if len(ck.violations) > 6:
             break
     ck.coverage.update({
@@ -529,7 +586,7 @@ def run(ck):
                 'placed after nothing / label / add-header / flag / move and before nothing / move / label, helper exit 0 / 3 / 127 / SIGKILL, in maildir and stdin '
                 '(a third of the moves / flags before the exec across file systems); rules with 2-4 exec actions of mixed stdin options (and a command condition): every child gets what its own action asks for; attachment blocks whose rule selects some of 2-6 parts (exec stdin / stdin body, a quarter with a failing command followed by a move); '
                 'mode, over plain, base64, quoted-printable and multipart/alternative bodies; command conditions with exit 0/1/7/127/SIGTERM; attachment blocks over '
-                'generated MIME trees; command conditions evaluated per attachment (plain, negated, inside a block) with identical arguments: one run per part; ${path} arguments over 4-5 messages in two maildirs; runs over 1-4 messages with date conditions on zone abbreviations started with TZ unset / empty / set: environment and working directory of every child equal those mdsort itself was started with. non-trivial = the command ran exactly once (or the parts were compared); counted per run',
+                'generated MIME trees; command conditions evaluated per attachment (plain, negated, inside a block) with identical arguments: one run per part; ${path} arguments over 4-5 messages in two maildirs; one failing fork / waitpid for the first of three messages, the later commands unaffected; runs over 1-4 messages with date conditions on zone abbreviations started with TZ unset / empty / set: environment and working directory of every child equal those mdsort itself was started with. non-trivial = the command ran exactly once (or the parts were compared); counted per run',
         'samples': samples,
         'traces_validated_against_impl': stats['runs'],
     })
